@@ -1,8 +1,13 @@
 package strings
 
 import (
+	"errors"
 	"strings"
 )
+
+// maxRepeatLen bounds the result of repeat: strings.Repeat panics on a negative
+// count and on a result it cannot allocate.
+const maxRepeatLen = 1 << 30
 
 //risor:generate
 
@@ -32,8 +37,14 @@ func compare(a, b string) int {
 }
 
 //risor:export
-func repeat(s string, count int) string {
-	return strings.Repeat(s, count)
+func repeat(s string, count int) (string, error) {
+	if count < 0 {
+		return "", errors.New("value error: strings.repeat count must not be negative")
+	}
+	if len(s) > 0 && count > maxRepeatLen/len(s) {
+		return "", errors.New("value error: strings.repeat result is too large")
+	}
+	return strings.Repeat(s, count), nil
 }
 
 //risor:export
